@@ -75,7 +75,7 @@ func TestCodecRef(t *testing.T) {
 	res := make([][]byte, nCodecOps)
 	for op := 0; op < nCodecOps; op++ {
 		r := codecOp(&corpus[i], op, nil)
-		if len(r) >= 6 && r[:6] == "PANIC:" {
+		if !keepResult(&corpus[i], op, r) {
 			r = ""
 		}
 		res[op] = []byte(r)
